@@ -6,7 +6,7 @@ From TK Require Import QuadTree_Model QuadTree_Spec QuadTree_SpecExec QuadTree_P
                        QuadTree_Proof_Insert QuadTree_Proof_Main QuadTree_Proof_Forces
                        QuadTree_Proof_Fuel QuadTree_Proof_Spec QuadTree_Proof_Exec
                        QuadTree_Proof_Observers QuadTree_Proof_Order QuadTree_Proof_Order2
-                       QuadTree_Proof_Bound.
+                       QuadTree_Proof_Bound QuadTree_Proof_Gradient.
 Import ListNotations.
 Local Open Scope Q_scope.
 
@@ -299,3 +299,23 @@ Qed.
 
 Lemma ex_theta : 0 <= (1 # 8) /\ 8 * ((1 # 8) * (1 # 8)) <= 1.
 Proof. split; vm_compute; discriminate. Qed.
+
+(* ---------- the loop of tsne.hpp over one tree with a shared sum_Q ---------- *)
+
+Lemma nonedge_loop_theta0_final : forall fx fuel data order root ok t,
+  in_root data root order -> NoCo data order ->
+  fill_order fx fuel data order (init root) = Done ok t ->
+  forall ns sq, (forall n, In n ns -> (n < length data)%nat) ->
+    exists l s, nonedge_loop data 0 t ns sq = Some (l, s) /\
+                rows_ok data order ns l /\ s == sq + total_sq data order ns.
+Proof. exact nonedge_loop_theta0_gen. Qed.
+
+Lemma nonedge_loop_bound_final : forall fx fuel data order root ok t,
+  in_root data root order -> NoCo data order ->
+  fill_order fx fuel data order (init root) = Done ok t ->
+  forall theta, 0 <= theta -> 8 * (theta * theta) <= 1 ->
+  forall ns sq, (forall n, In n ns -> (n < length data)%nat) ->
+    exists l s, nonedge_loop data theta t ns sq = Some (l, s) /\ length l = length ns /\
+                -(epsf theta * total_sq data order ns) <= s - (sq + total_sq data order ns) /\
+                s - (sq + total_sq data order ns) <= epsf theta * total_sq data order ns.
+Proof. exact nonedge_loop_bound_gen. Qed.
